@@ -5,7 +5,7 @@
    ASan/UBSan by harness/props/c09.py.  `_refuted` theorems are the guards that are wrong
    in /repo (findings F3, F4, C09-N1..N6), each next to the repaired guard proved correct. *)
 From Coq Require Import List ZArith Bool.
-From TskVerif Require Import Base.Common C09.Guards C09.GuardProofs C09.MapMutations.
+From TskVerif Require Import Base.Common C09.Guards C09.GuardProofs C09.MapMutations C09.SeekProofs C09.RatesProofs.
 Import ListNotations.
 Open Scope Z_scope.
 
@@ -114,6 +114,11 @@ Theorem pair_coalescence_rates_refuted :
     pair_coalescence_rates_entry false N imap times 0 sizes flat = OOB.
 Proof. exact GuardProofs.pair_coalescence_rates_refuted. Qed.
 
+Theorem guard_implies_in_bounds_pair_coalescence_rates_repaired : forall N imap times t0 sizes flat,
+  zlen imap = N -> zlen times = N -> sum_sizes sizes = zlen flat ->
+  pair_coalescence_rates_entry true N imap times t0 sizes flat <> OOB.
+Proof. exact RatesProofs.guard_implies_in_bounds_pair_coalescence_rates_repaired. Qed.
+
 (* ---- table rows ---- *)
 Theorem guard_implies_in_bounds_get_row : forall col offset n i,
   zlen col = n -> zlen offset = n + 1 -> table_get_row col offset n i <> OOB.
@@ -187,6 +192,14 @@ Proof. exact GuardProofs.seek_guard_repaired_passes. Qed.
 Theorem tree_seek_repaired_rejects_nan : forall bps T i fuel,
   zlen bps = T + 1 -> 0 <= T -> exists c, tree_seek true fuel bps T i NaN = Err c.
 Proof. exact GuardProofs.tree_seek_repaired_rejects_nan. Qed.
+
+(* totality for finite in-range positions: from any state, in either direction, the linear
+   seek reaches the covering tree within num_trees + 1 steps (no fuel exhaustion) *)
+Theorem tree_seek_linear_terminates : forall bps T i z fwd,
+  bps_sorted bps T -> 1 <= T -> -1 <= i < T ->
+  (exists b0 bT, get bps 0 = Ok b0 /\ get bps T = Ok bT /\ b0 <= z < bT) ->
+  exists j, seek_loop (Z.to_nat (T + 1)) fwd bps T i (Fin z) = Ok j /\ in_interval bps j (Fin z) = Ok true.
+Proof. exact SeekProofs.tree_seek_linear_terminates. Qed.
 
 (* finding C09-N4 *)
 Theorem windows_guard_nan_refuted :
